@@ -54,6 +54,7 @@ def events_only(builds):
 
 
 def names_lines(rng, nkeys, pool):
+    pool = sorted(set(pool))          # distinct spellings only: two keys with one name are one key
     names = rng.sample(pool, min(nkeys, len(pool)))
     return ["name %d %s" % (i, vlib.hx(nm) if nm else "-") for i, nm in enumerate(names)]
 
